@@ -96,7 +96,8 @@ def c20_casesv(lines):
     rows = []
     for l in lines:
         f = l.split()
-        b = ["true" if x == "1" else "false" for x in f[6:14]]
+        b = ["true" if x == "1" else "false" for x in f[6:15]]
+        b[6], b[7] = b[7], b[6]   # line: … done_at_return right_handler done_nil …; record: … done_at_return done_nil right_handler …
         rows.append("verdict_ok (check_case acts %s%%N %s%%N (mkObs %s %s))" % (f[1], f[2], CLS.get(f[5], "OOther"), " ".join(b)))
     return ("From Coq Require Import List NArith String.\nImport ListNotations.\nFrom Glb Require Import Model.Daemon Check.C20.\n"
             "Open Scope string_scope.\nDefinition acts : list action := " + st["coq"] + ".\n"
@@ -112,6 +113,10 @@ def c20_sig(line):
         return "wrong-handler"
     if "did not return" in line:
         return "launch-never-returns"
+    if "daemon_dies_before_done=" in line:
+        return "failed-launch-not-reported"
+    if "pid_matches=0" in line and 'err=""' in line:
+        return "wrong-pid"
     if "survived_300ms_after_return=0" in line or re.search(r"^E( \S+){10} 0 ", line):
         return "daemon-dies-after-return"
     if " stderr " in line or "daemon_stderr=b" in line:
@@ -133,7 +138,10 @@ CFG = dict(
     coq_sample={"quick": 100, "thorough": 200},
     rule=("real processes: daemon delay before Done() {0, 50, 300 ms} x launcher pause right after cmd.Start() {0, 200 ms} "
           "(hook VERIF_PAUSE_LAUNCH_AFTERSTART) x {1, 4} concurrent Launch calls with a silent daemon, a slow daemon (1 s before "
-          "Done(); thorough also 4.5 s), 4 bursts of 8 overlapping launches, all under two handler names used alternately, plus the daemon handler "
+          "Done(); thorough also 4.5 s), 4 bursts of 8 overlapping launches, all under two handler names used alternately; handlers that "
+          "unset the ENV_DAEMON_* markers / clear their environment before Done(); daemons that exit(3) / panic before Done() (Launch "
+          "must fail with pid 0), alone and in sequences 'failing launches followed by normal ones' run from one goroutine (2 x 12 "
+          "steps; thorough 10 x 12); plus the daemon handler "
           "variants 'stderr line before Done()', 'stderr line 100 ms after Done()', 'both' on the two extreme timings x {1, 4} "
           "(thorough: 6 delays x 4 pauses x {1,4,8} x all 4 variants, 5 rounds); one case = one Launch call with what was observed "
           "when it returned (error, pid, marker, pre-Done() marker, handler name in the marker, /proc) and again ~300 ms later (daemon still "
@@ -153,6 +161,9 @@ CFG = dict(
                  "when Launch returns, for daemon delays up to 1 s (quick) / 4.5 s (thorough). A launcher that gives up waiting after a "
                  "longer grace period is caught only statically: any select case other than the Notify channel and the waiter's channel "
                  "makes the extracted action list ill-formed (VIOLATION ... no-failing-input-found)",
+                 "GO SIDE ONLY as well: a daemon that dies before Done() (outside the theorem's premise) must make Launch fail with pid 0 "
+                 "and must not disturb later launches of the same process; Done() must return nil and work after the handler scrubbed its "
+                 "environment; each scenario has its own marker directory, so a returned pid is compared with the marker of that launch only",
                  "the forced schedule depends on the verif hook: its presence is checked in the source (glbfacts) and by timing "
                  "(a successful Launch under a 200 ms pause cannot take less than 200 ms)",
                  "GO SIDE ONLY: the daemon's standard streams are outside Model/Daemon.v. That a daemon which writes to its stderr "
